@@ -967,9 +967,13 @@ pub fn get_all_files_with_ext_in_dir(
 /// ```
 #[inline(always)]
 pub fn sync_sender_send_delay_if_full<T>(m: T, tx: &SyncSender<T>) -> Result<(), SendError<T>> {
+    #[cfg(feature = "verif_hooks")]
+    crate::verif::pause(crate::verif::Point::BeforeSend);
     match tx.try_send(m) {
         Ok(_) => Ok(()),
         Err(TrySendError::Full(m)) => {
+            #[cfg(feature = "verif_hooks")]
+            crate::verif::hit(crate::verif::Point::SendFull);
             std::thread::sleep(std::time::Duration::from_millis(10));
             tx.send(m)
         }
